@@ -1,11 +1,14 @@
 """Per-property configuration of ./check (harnesses, Lean targets, evidence texts)."""
 
 LEAN_TB = "Lean 4.33 kernel; axioms propext, Classical.choice, Quot.sound only (audited by #print axioms on every run); no sorry/native_decide/bv_decide"
+AEL_TB = ["Model/Ael.lean is a hand model of the bookkeeping of SetWindCountFor...PathEdge / InsertLocalMinimaIntoAEL / IntersectEdges / DoMaxima, tied by replaying hook-H1 traces of the real engine (AELVERIFY: every op accepted, invariant after every op, every snapshot equal field by field); only IsContributingClosed/IsContributingOpen are generated from source",
+          "geometry is an input of the model: that the sweep presents events in an order keeping the AEL sorted (IsValidAelOrder, intersect list, TopX), intersection rounding and ring assembly are NOT covered by the theorems; they are covered by the spec-level correspondence against exact winding numbers",
+          "hot = outrec != nullptr || join_with != NoJoin (joins/Split abstracted); wind counts are mathematical Int"]
 T_TB = "tools/cpp2lean.py: clang-14 JSON AST -> Lean translation of the listed functions (signed C++ integers as Int, uint64_t as UInt64); validated on every run by executing generated definitions against the compiled code"
 C_TB = "correspondence harness (sampling): a divergence on inputs never generated is not seen"
 
 EXTRA_GENERATORS = []
-HOOK_COMMITS = []
+HOOK_COMMITS = ["eb1b8d2 verif hook H1: guarded (CLIPPER2_VERIF) active-edge-list bookkeeping events in clipper.engine.cpp"]
 NOT_CLAIMED = {}
 
 
@@ -24,18 +27,27 @@ PROPS = {
         explanation="Theorems: Multiply exact for all 2^128 inputs; ProductsAreEqual/CrossProductSign/IsCollinear exact on both code paths (generated from source each run). Correspondence: generated definitions and the exact integer Spec against the compiled functions (128-bit and portable branches).",
     ),
     "C01": dict(
+        claimed=True,
+        level_text="Theorems (all inputs, all histories): the fill-rule x clip-type decision table equals 'the filled state differs across the edge' (over the definition regenerated from source), wind counts stored at insertion are the prefix-sum encodings, the invariant (counts + hot iff contributing) holds after every op sequence, and in every such state hot edges delimit exactly the gaps where inR holds (coverage_1d). Partial for the whole property: event ordering, intersection rounding and ring assembly are decided by spec-level correspondence of real outputs against exact winding numbers in Lean",
+        level_note="Lean kernel; cpp2lean for the decision functions; hand bookkeeping model tied by H1 trace replay; geometry as model input; sampling for the spec-level part",
+        technique="Lean 4 invariant proof over op sequences + source-regenerated decision table + trace refinement check + exact winding-number oracle",
         level="proof",
-        lean_targets=["ClipperVerif.Driver.Region"],
+        lean_targets=["ClipperVerif.Props.C01"],
         harnesses=[dict(src="C01.cpp", name="C01"), dict(src="C01.cpp", name="C01hp", flags=["-DCLIPPER2_HI_PRECISION=1"])],
-        trusted_base=[LEAN_TB, T_TB, C_TB],
+        trusted_base=[LEAN_TB, T_TB, C_TB] + AEL_TB,
         rule="general-position inputs (premise re-verified exactly in Lean, margin 3 units) x 16 (ct,fr) x random PreserveCollinear/ReverseSolution x paths/polytree; probes along edges, around vertices and crossings and random; a record is non-trivial when the Lean side judged it (not `notgp`)",
         explanation="",
     ),
     "C13": dict(
+        claimed=True,
+        level_text="Theorems: set algebra of inR (symmetry, negation/Positive-Negative exchange, Xor = Union minus Intersection, Difference/Intersection partition), invariance of the Spec winding number under translation, scaling, mirroring, path order, start rotation, duplicate and closing vertices, reversal; and on the bookkeeping model, exchanging path types / negating all directions commutes with every operation including hot flags. Exact path-set equality of real outputs and the affine/algebraic identities are additionally checked by correspondence (general position verified in Lean)",
+        level_note="Lean kernel; hand bookkeeping model tied by trace replay (C01); exact equality of real outputs relies on unmodelled geometry and is sampled; transposition invariance of the Spec winding number is not proved",
+        technique="Lean 4 theorems on Spec and bookkeeping model + metamorphic correspondence judged in Lean",
         level="proof",
-        lean_targets=["ClipperVerif.Driver.Region"],
+        lean_targets=["ClipperVerif.Props.C13", "ClipperVerif.Props.C13Spec"],
+        audits=["C13", "C13Spec"],
         harnesses=[dict(src="C13.cpp", name="C13")],
-        trusted_base=[LEAN_TB, T_TB, C_TB],
+        trusted_base=[LEAN_TB, T_TB, C_TB] + AEL_TB,
         rule="general-position inputs up to 2^40 (premise verified exactly in Lean); exact equality of canonicalised solutions under permutation / start rotation / duplicate+closing vertices / subject-clip swap / global reversal; region equality (exact winding numbers outside the band) for Xor=Union-Intersection, Difference+Intersection=subject, translation, transposition, mirroring, integer scaling",
         explanation="",
     ),
@@ -51,5 +63,17 @@ PROPS = {
                       "the engine itself is not modelled in this slice: exactness for all inputs rests on enumeration (rectangle pairs) and sampling (random walks)"],
         rule="every Clipper64::Execute on rectilinear input is one record; distinct by request line; small scope = ordered pairs of the 100 lattice rectangles on {0..4}^2 x 4 clip types x 4 fill rules x scales {1,7,2^30} (thorough: all 10000 pairs x PreserveCollinear on/off, quick: seeded 1/8 of the pairs); random closed rectilinear walks 4-16 vertices on a 6x6 lattice with collinear vertices, spikes, overlapping edges, 1-3 paths per side, scales {1,7,2^30,2^58}; long walks 17-40 vertices on a 12x12 lattice; sets of up to 5 lattice rectangles with coincident copies",
         explanation="Theorems: winding numbers of rectilinear closed paths are constant on grid cells (windR_cell_const); a true verdict of the executable checker implies rectilinearity, coordinate provenance and wind sol p = [p in R] for every rational point p (rectCheck_sound); discrete Green theorem: shoelace area = sum over cells of winding number x area (shoelace_cells), so the area clause follows from the cell clause (area_of_cells). Correspondence: the proved checker judges every real engine output.",
+    ),
+    "C05": dict(
+        claimed=True,
+        level_text="Theorems: IsContributingOpen (regenerated from source) equals the Spec keepOpen for all windings; open-edge wind counts at insertion are the closed-subject/clip prefix sums; along every op sequence an open edge is hot exactly when keepOpen holds at its position (open_toggle_inv); open edges never change the bookkeeping of closed edges (closed_unaffected_run). Partial for the whole property: cut-point placement, stitching and lengths are decided by spec-level correspondence (sample points on every open segment judged by exact winding numbers)",
+        level_note="Lean kernel; cpp2lean; hand bookkeeping model tied by H1 trace replay (AELVERIFYOPEN); open paths are subject paths; total-length clause covered only through the sampled coverage test",
+        technique="Lean 4 invariant proof + source-regenerated decision function + trace refinement check + exact oracle",
+        level="proof",
+        lean_targets=["ClipperVerif.Props.C05"],
+        harnesses=[dict(src="C05.cpp", name="C05")],
+        trusted_base=[LEAN_TB, T_TB, C_TB] + AEL_TB + ["open paths are subject paths; cut-point placement and stitching not modelled"],
+        rule="general-position closed subject/clip sets plus 1-3 random open polylines (premise incl. open paths verified exactly in Lean); all ct x fr sampled, paths and polytree execution; sample points at odd sixteenths of every open subject segment judged by keepOpen on exact winding numbers",
+        explanation="",
     ),
 }
